@@ -199,7 +199,8 @@ def rne(m, k, qvel, qacc=None, gravity=None, return_scale=False):
     if return_scale:
       fa = S.body_mass[b] * (np.abs(ac[b]) + np.abs(g) + np.linalg.norm(vc[b]) * np.linalg.norm(om[b]))
       na = np.abs(I[b]) @ np.abs(al[b]) + np.linalg.norm(om[b]) * (np.abs(I[b]) @ np.abs(om[b]))
-      scale += np.abs(jp).T @ fa + np.abs(jr).T @ na
+      # norm-based (not element-wise): axis components carry an absolute rounding error of eps
+      scale += np.linalg.norm(jp, axis=0) * np.linalg.norm(fa) + np.linalg.norm(jr, axis=0) * np.linalg.norm(na)
       for i, (lev, crd) in _lever_bounds(k, b).items():
         scale[i] += crd * np.linalg.norm(fa)
   if return_scale:
